@@ -1070,19 +1070,21 @@ def run_session(actions):
             elif act[0] == 'fresh':
                 w = numqi.sim.CircuitTorchWrapper(b.circ)
                 with torch.no_grad():
-                    for name, par in w.theta.items():
-                        for r in range(par.shape[0]):
-                            obj = b.circ.gate_index_list[w.ind_theta_to_ind_gate[name][r][0]][0]
-                            k = [i for i, o in enumerate(b.objs) if o is obj]
-                            if k and k[0] in act[1]:
-                                par[r] = torch.tensor(act[1][k[0]], dtype=torch.float64)
+                    # the row of a gate in the wrapper's parameter tensor is identified by its current angles (all distinct)
+                    for k, new in act[1].items():
+                        par = w.theta[base_of(steps[k][0])]
+                        cur = np.array(steps[k][-1], dtype=np.float64)
+                        rows = [r for r in range(par.shape[0]) if np.array_equal(par[r].numpy(), cur)]
+                        if len(rows) != 1:
+                            raise ValueError('parameter row not identifiable')
+                        par[rows[0]] = torch.tensor(new, dtype=torch.float64)
                 w.fresh_gate_parameter()
                 for k, a in act[1].items():
                     steps[k] = steps[k][:-1] + (tuple(a),)
             U = b.circ.to_unitary()
             A = np.stack([b.circ.apply_state(np.eye(U.shape[0], dtype=np.complex128)[j]) for j in range(U.shape[0])], axis=1)
             rec.append((list(steps), U, A))
-        except (AssertionError, ValueError, TypeError, IndexError, KeyError, RuntimeError, AttributeError) as e:
+        except Exception as e:
             rec.append((list(steps), 'error:' + type(e).__name__, None))
     return rec
 
@@ -1336,14 +1338,25 @@ def slice_cases(ctx, rng):
     for n in range(1, nmax + 1):
         for r in range(0, n + 1):
             for c in itertools.combinations(range(n), r):
-                def f(n=n, c=c):
-                    free = [q for q in range(n) if q not in c]
-                    shape0, index0, _ = st._control_n_index(n, set(c), tuple(free[:1]))
-                    pos = np.arange(2 ** n).reshape(shape0)[index0].reshape(-1)
+                free = [q for q in range(n) if q not in c]
+                if free:
+                    # which flat positions the control slice touches, read off the PUBLIC routine: the doubling operator 2*I on a
+                    # free target multiplies exactly the entries whose controls are all 1
+                    def f(n=n, c=c, t=free[0]):
+                        ones = np.ones(2 ** n, dtype=np.complex128)
+                        r_ = st.apply_control_n_gate(ones, 2 * np.eye(2), set(c), (t,)) if c else st.apply_gate(ones, 2 * np.eye(2), (t,))
+                        if not np.all((r_ == 1) | (r_ == 2)):
+                            return 'not-a-0/1-selection'
+                        return ';'.join(str(int(x)) for x in np.nonzero(r_ == 2)[0]) + ' slice=bitwise'
+                    cases.append(Case(f'C03 slicepos {n} {idx_str(c)}', f, key='control-slice', ntkey=('slicepos', n, c)))
+                # optional extra: the private helper, compared only if still callable with the known signature / return arity
+                def fx(n=n, c=c, free=free):
+                    r3 = st._control_n_index(n, set(c), tuple(free[:1]))
+                    if not (isinstance(r3, tuple) and len(r3) == 3):
+                        raise TypeError('different return arity')
+                    pos = np.arange(2 ** n).reshape(r3[0])[r3[1]].reshape(-1)
                     return ';'.join(str(int(x)) for x in pos) + ' slice=bitwise'
-                def o(n=n, c=c):
-                    return [p for p in range(2 ** n) if all((p >> (n - 1 - q)) & 1 for q in c)]
-                cases.append(Case(f'C03 slicepos {n} {idx_str(c)}', f, key='control-slice', ntkey=('slicepos', n, c)))
+                cases.append(Case(f'C03 slicepos {n} {idx_str(c)}', fx, key='control-slice(private helper)', ntkey=('slicepos-helper', n, c), soft=True))
     return cases
 
 
